@@ -366,6 +366,18 @@ func Controller(thorough bool, expired func() bool, level func(name string, comp
 		}
 		yield(BundleAdd(BundleAdd(m.Clone(), 1), 2))
 	}
+	// bundle-add carrying one and two experimenter properties behind the embedded message
+	prop := func(rot int) *wire.N {
+		return wire.New("bundle_prop_experimenter").Set("ExperimenterID", PatU(4, rot)).Set("ExperimenterType", PatU(4, rot+1))
+	}
+	for _, m := range reps[:6] {
+		b1 := BundleAdd(m.Clone(), 1)
+		b1.S["VendorData"].Add("Properties", prop(1))
+		yield(b1)
+		b2 := BundleAdd(m.Clone(), 2)
+		b2.S["VendorData"].Add("Properties", prop(2), prop(4))
+		yield(b2)
+	}
 	// the two sizes that bring the whole message to 65528 and 65535 bytes
 	for _, total := range []int{65528, 65535, 65527, 32768} {
 		yield(PacketOut(Payload(total-24), true))
